@@ -169,6 +169,24 @@ Definition configure_with (ev : Z) (h : cfg_hook) : cfg_result :=
   end.
 Definition configure (p : plugin) (h : cfg_hook) : cfg_result := configure_with (stub_events p) h.
 
+(* Several sessions of ONE stub object (Start ... Stop, Start ...): the stub's state that Configure reads
+   is its mask.  [stores] = Configure writes the accepted subscription back into that mask
+   (regenerated: configure_stores_events).  Result of the session and the mask the next session sees. *)
+Definition configure_st (stores : bool) (ev : Z) (h : cfg_hook) : cfg_result * Z :=
+  let r := configure_with ev h in
+  (r, match h, r with
+      | HookMask _, COk m => if stores then m else ev
+      | _, _ => ev
+      end).
+Fixpoint run_sessions (stores : bool) (ev : Z) (hooks : list cfg_hook) : list cfg_result :=
+  match hooks with
+  | [] => []
+  | h :: rest => fst (configure_st stores ev h) :: run_sessions stores (snd (configure_st stores ev h)) rest
+  end.
+(* the answers a stub of plugin type p gives in consecutive sessions *)
+Definition sessions (p : plugin) (hooks : list cfg_hook) : list cfg_result :=
+  run_sessions configure_stores_events (stub_events p) hooks.
+
 (* --- dispatch ----------------------------------------------------------- *)
 
 (* a message from the runtime: the event and its fields, each field reduced to
@@ -302,18 +320,27 @@ Definition all_handlers_exact (n : N) : bool := forallb handlers_exact (plugins_
    wait_cfg_unguarded      Start's receive on cfgErrC is not released by the loss of the connection
    stale_close_unfiltered  connClosed closes whatever session is current, whichever client it came from
    dead_conn_reused        a failed Start leaves the closed connection in stub.conn *)
-Record switches := { wait_cfg_unguarded : bool; stale_close_unfiltered : bool; dead_conn_reused : bool }.
+Record switches := { wait_cfg_unguarded : bool; stale_close_unfiltered : bool; dead_conn_reused : bool;
+  (* a variant of the second defect: connClosed does filter, but by a number that is advanced only when an
+     ESTABLISHED session is closed, so the client of a failed Start shares its number with the next client *)
+  failed_start_shares_session : bool }.
 
 Definition fixed : switches :=
-  {| wait_cfg_unguarded := false; stale_close_unfiltered := false; dead_conn_reused := false |}.
+  {| wait_cfg_unguarded := false; stale_close_unfiltered := false; dead_conn_reused := false;
+     failed_start_shares_session := false |}.
 (* the code as pinned in round 1: all three defects present *)
 Definition pinned : switches :=
-  {| wait_cfg_unguarded := true; stale_close_unfiltered := true; dead_conn_reused := true |}.
+  {| wait_cfg_unguarded := true; stale_close_unfiltered := true; dead_conn_reused := true;
+     failed_start_shares_session := false |}.
+(* the repaired code with the session number advanced in close() instead of Start() *)
+Definition shared_session : switches :=
+  {| wait_cfg_unguarded := false; stale_close_unfiltered := false; dead_conn_reused := false;
+     failed_start_shares_session := true |}.
 (* the switch values of the CURRENT code in /repo: read from the shapes of Start and connClosed on
    every run (Model/StubConsts.v; a switch is off only when the repaired shape is recognised) *)
 Definition faithful : switches :=
   {| wait_cfg_unguarded := life_wait_cfg_unguarded; stale_close_unfiltered := life_stale_close_unfiltered;
-     dead_conn_reused := life_dead_conn_reused |}.
+     dead_conn_reused := life_dead_conn_reused; failed_start_shares_session := life_session_not_per_client |}.
 
 (* stub.conn: nil, the socket dialled for generation g (live), or that socket closed / peer gone *)
 Inductive conn := CNone | CLive (g : nat) | CDead (g : nat).
@@ -396,6 +423,11 @@ Fixpoint remove_first (g : nat) (l : list nat) : list nat :=
   match l with [] => [] | x :: r => if Nat.eqb x g then r else x :: remove_first g r end.
 Definition memn (g : nat) (l : list nat) : bool := existsb (Nat.eqb g) l.
 
+(* client g was created under the session number that is current now: no established session
+   x with g <= x < gen was closed in between *)
+Definition shares_session (s : state) (g : nat) : bool :=
+  negb (existsb (fun x => Nat.leb g x && Nat.ltb x (gen s)) (established s)).
+
 Definition lock_free (s : state) : bool :=
   match ph s with Idle | Configured => true | _ => false end.
 Definition start_pending (s : state) : bool :=
@@ -477,7 +509,8 @@ Definition step (sw : switches) (s : state) (a : action) : state :=
         let s1 := {| gen := gen s; started := started s; sconn := sconn s; ph := ph s; cli_open := cli_open s;
                      pending := remove_first g (pending s); closer := closer s; fired := fired s;
                      established := established s; waiters := waiters s; last_start := last_start s |} in
-        if Nat.eqb g (gen s) || stale_close_unfiltered sw then begin_close s1 (Some g)
+        if Nat.eqb g (gen s) || stale_close_unfiltered sw || (failed_start_shares_session sw && shares_session s g)
+        then begin_close s1 (Some g)
         else {| gen := gen s1; started := started s1; sconn := sconn s1; ph := ph s1; cli_open := cli_open s1;
                 pending := pending s1; closer := closer s1; fired := g :: fired s1;
                 established := established s1; waiters := waiters s1; last_start := last_start s1 |}
@@ -571,8 +604,11 @@ Definition run_start (sw : switches) (s : state) (b : behaviour) : state :=
 Inductive op :=
 | OStart (b : behaviour)      (* Start, then wait until everything under way has happened *)
 | OStop | OWait | OLose       (* Stop / a Wait call in the background / the runtime drops an established session *)
-| OStopStart (b : behaviour). (* Stop immediately followed by Start: the close notification of the
+| OStopStart (b : behaviour)  (* Stop immediately followed by Start: the close notification of the
                                  stopped session may run before or after the new Start *)
+| OStartStart (f b : behaviour). (* Start against a runtime behaving as f (meant to fail) immediately followed
+                                 by Start against b: the close notification of the first attempt's client
+                                 may run before or after the second Start *)
 
 (* what is observed of one operation *)
 Inductive oclass := KOk | KErr | KReturned | KBlocked.
@@ -609,6 +645,13 @@ Definition do_op (sw : switches) (s : state) (o : op) : list (state * obs) :=
         let late := settle sw (run_start sw s0 b) in              (* the new Start wins the lock *)
         let early := settle sw (run_start sw (settle sw s0) b) in (* the old notification runs first *)
         [(late, observe (start_class late) late); (early, observe (start_class early) early)]
+    | OStartStart f b =>
+        let s0 := run_start sw s f in
+        if start_pending s0 then [(s0, observe KBlocked s0)]
+        else
+          let late := settle sw (run_start sw s0 b) in
+          let early := settle sw (run_start sw (settle sw s0) b) in
+          [(late, observe (start_class late) late); (early, observe (start_class early) early)]
     end.
 
 Definition is_blocked (o : obs) : bool := match o_class o with KBlocked => true | _ => false end.
